@@ -4,6 +4,7 @@ import (
 	"context"
 
 	"github.com/klev-dev/klevdb/pkg/notify"
+	"github.com/klev-dev/klevdb/pkg/verifhook"
 )
 
 // BlockingLog enhances [Log] adding blocking consume
@@ -46,6 +47,7 @@ func (l *blockingLog) Publish(messages []Message) (int64, error) {
 		return OffsetInvalid, err
 	}
 
+	verifhook.Pause("blocking.publish.before-notify")
 	l.notify.Set(nextOffset)
 	return nextOffset, nil
 }
@@ -54,6 +56,7 @@ func (l *blockingLog) ConsumeBlocking(ctx context.Context, offset int64, maxCoun
 	if err := l.notify.Wait(ctx, offset); err != nil {
 		return OffsetInvalid, nil, err
 	}
+	verifhook.Pause("blocking.consume.after-wait")
 	return l.Consume(offset, maxCount)
 }
 
@@ -61,6 +64,7 @@ func (l *blockingLog) ConsumeByKeyBlocking(ctx context.Context, key []byte, offs
 	if err := l.notify.Wait(ctx, offset); err != nil {
 		return OffsetInvalid, nil, err
 	}
+	verifhook.Pause("blocking.consume.after-wait")
 	return l.ConsumeByKey(key, offset, maxCount)
 }
 
